@@ -80,6 +80,19 @@ Proof. exact env_read_declared_oversize. Qed.
 Print Assumptions limit_declared.
 
 (* Unary Connect bodies. *)
+(* "at every position in a stream": after a refusal the reader stands exactly on the next
+   envelope. A reader that goes on (a bidi handler, a raw conn) gets from then on what the rest
+   of the stream holds - no byte of the refused message, and every later message within the
+   limit (the theorems above apply to [rest]) *)
+Theorem refusal_skips_exactly_the_refused_frame :
+  forall (M : Type) (u : bytes -> M -> option M) (d : bytes -> option bytes) (zero : M)
+         k max pool fl data rest f,
+  len data < two32 -> 0 < max -> max < len data ->
+  recv_n_f M u d zero (Datatypes.S k) max pool (frame fl data ++ rest, f)
+  = UErr (RErr code_invalid_argument) :: recv_n_f M u d zero k max pool (rest, f).
+Proof. exact recv_after_refusal_lemma. Qed.
+Print Assumptions refusal_skips_exactly_the_refused_frame.
+
 Theorem limit_unary : forall (M : Type) (u : bytes -> M -> option M) (d : bytes -> option bytes)
     max pool h body f,
   0 < max -> max < len body ->
